@@ -128,6 +128,7 @@ def _job(job):
     else:
       sdoc = job["sdoc"]
       ad, cat = build_input_of(sdoc)
+      ad["D"] = job.get("D", 2)
     D = ad.get("D", 2)
     doc, _e, _r = build_doc(ad, D, cat)
     times = job["times"]
@@ -147,40 +148,56 @@ def observe_all(jobs, procs=12):
 # design-level runs
 # ----------------------------------------------------------------------------------------------------------
 
-def design(ctx, tier, names=None, workers=2, par=6):
-  """Model-check StyleSweep on every family; returns {name: (cases, times, focus)} from TLC's state dumps."""
+def design(ctx, tier, names=None, workers=3, groups=4):
+  """Model-check StyleSweep on every family (a few TLC runs, several families each); returns
+  {name: (cases, times, focus)} from TLC's state dumps."""
   fams = F.families(tier)
   if names:
     fams = {k: v for k, v in fams.items() if k in names}
+  # balance the groups by a rough size estimate
+  def size(fam):
+    n = len(fam["anim"]) * len(fam["ini"]) * len(fam["geo"]) * len(fam["times"]) * (4 if fam.get("full") else 1)
+    for a in fam["axes"]:
+      for lv in a["lv"]:
+        n *= len(lv)
+    return n
+  order = sorted(fams.items(), key=lambda kv: -size(kv[1]))
+  bins = [[] for _ in range(min(groups, len(order)))]
+  load = [0] * len(bins)
+  for name, fam in order:
+    i = load.index(min(load))
+    bins[i].append((name, fam))
+    load[i] += size(fam)
 
-  def one(item):
-    name, fam = item
-    mc = F.mc_module(fam)
+  def one(b):
+    mc = F.mc_module([fam for _, fam in b])
     res = T.run_tlc("MC_StyleSweep", F.CFG, workers=workers, extra_files={"MC_StyleSweep.tla": mc}, dump="states",
-                    timeout=3000, name="sweep_" + name, java_opts=("-Xmx3g",))
-    return name, fam, res
+                    timeout=3000, name="sweep", java_opts=("-Xmx4g",))
+    return b, res
 
-  with ThreadPoolExecutor(max_workers=par) as ex:
-    results = list(ex.map(one, fams.items()))
+  with ThreadPoolExecutor(max_workers=len(bins)) as ex:
+    results = list(ex.map(one, bins))
   out = {}
-  for name, fam, res in results:
+  for b, res in results:
+    label = ", ".join(n for n, _ in b)
     if res.violated:
-      raise T.MachineryError(f"Styles.tla violates its own design properties on family {name}: {res.violated}\n" + res.out[-2500:])
+      raise T.MachineryError(f"Styles.tla violates its own design properties on families {label}: {res.violated}\n" + res.out[-2500:])
     if not res.completed:
-      raise T.MachineryError(f"StyleSweep run {name} did not complete\n" + res.out[-1500:])
-    ctx.tlc(res, f"StyleSweep design model, family '{name}'")
-    states = T.parse_dump_fast(os.path.join(res.workdir, "states.dump"), {"case", "ti"})
-    cases = {}
-    nstates = 0
+      raise T.MachineryError(f"StyleSweep run {label} did not complete\n" + res.out[-1500:])
+    ctx.tlc(res, f"StyleSweep design model, families: {label}")
+    states = T.parse_dump_fast(os.path.join(res.workdir, "states.dump"), {"fi", "case", "ti"})
+    cases = [dict() for _ in b]
+    nstates = [0] * len(b)
     for s in states:
-      nstates += 1
+      nstates[s["fi"] - 1] += 1
       if s["ti"] == 1:
-        cases[json.dumps(s["case"], sort_keys=True)] = s["case"]
-    if nstates != len(cases) * len(fam["times"]):
-      raise T.MachineryError(f"family {name}: {nstates} dumped states for {len(cases)} cases x {len(fam['times'])} ticks")
-    out[name] = (list(cases.values()), fam["times"], fam["focus"])
-    ctx.count("design_states_" + name, nstates)
-  return out
+        cases[s["fi"] - 1][json.dumps(s["case"], sort_keys=True)] = s["case"]
+    for i, (name, fam) in enumerate(b):
+      if nstates[i] != len(cases[i]) * len(fam["times"]) or not cases[i]:
+        raise T.MachineryError(f"family {name}: {nstates[i]} dumped states for {len(cases[i])} cases x {len(fam['times'])} ticks")
+      out[name] = (list(cases[i].values()), fam["times"], fam["focus"])
+      ctx.count("design_states_" + name, nstates[i])
+  return {k: out[k] for k in fams}
 
 
 # ----------------------------------------------------------------------------------------------------------
@@ -209,6 +226,7 @@ def validate(ctx, recs, label, nproc=6):
     ctx.tlc(res, f"trace validation {label}")
     for v in res.values("FAIL"):
       fails.append(tuple(v[1:8]))
+    ctx.count("skipped_out_of_domain_values", len(res.values("SKIP")))
   return fails
 
 
@@ -262,22 +280,25 @@ def describe(sdoc, R, k, prop):
   def rv(p):
     return ",".join(sorted({s["v"].get("s", "") for s in sty(0) + san(0) if s["p"] == p}))
 
-  f = {"prop": prop, "cls": CLS.get(prop, "opaque"), "kind": "region" if k == 0 else sdoc["kind"][k - 1],
-       "own_specified": has(k, prop, sty), "own_animated": has(k, prop, san),
-       "ancestor_specified": any(has(x, prop, sty) or has(x, prop, san) for x in nodes[1:]) if k else False,
-       "initial_override": any(s["p"] == prop for s in sdoc["ini"]),
-       "units": ",".join(sorted(units)), "default_region": R == 0,
-       "region_wm": rv("WritingMode").replace("WritingModeType.", ""),
-       "region_wm_animated": has(0, "WritingMode", san), "region_direction_animated": has(0, "Direction", san),
-       "region_direction_specified": has(0, "Direction", sty),
-       "initial_wm": any(s["p"] == "WritingMode" for s in sdoc["ini"]),
-       "in_ruby": any(sdoc["kind"][x - 1] in ("rt", "rtc", "rb", "rbc", "ruby") for x in path)}
+  own = "animated" if has(k, prop, san) else ("specified" if has(k, prop, sty) else "no")
+  f = {"prop": prop, "cls": CLS.get(prop, "opaque"), "kind": "region" if k == 0 else sdoc["kind"][k - 1], "own": own,
+       "ancestor_specifies": any(has(x, prop, sty) or has(x, prop, san) for x in nodes[1:]) if k else False,
+       "initial_override": any(s["p"] == prop for s in sdoc["ini"]), "units": ",".join(sorted(units))}
+  if prop == "FontSize":
+    f["in_ruby_text"] = any(sdoc["kind"][x - 1] in ("rt", "rtc") for x in path)
+  if prop in ("Direction", "TextEmphasis", "Padding"):
+    f["region_wm"] = rv("WritingMode").replace("WritingModeType.", "")
+    f["region_wm_animated"] = has(0, "WritingMode", san)
+    f["initial_wm"] = any(s["p"] == "WritingMode" for s in sdoc["ini"])
+  if prop == "Direction":
+    f["region_direction_animated"] = has(0, "Direction", san)
+    f["region_direction_specified"] = has(0, "Direction", sty)
   if prop in ("Position", "Origin"):
     edges = set()
     for s in sty(0) + san(0) + sdoc["ini"]:
       if s["p"] == "Position":
         edges.add(s["v"]["he"] + "/" + s["v"]["ve"])
-    f["position_edges"] = ",".join(sorted(edges))
     f["position_present"] = bool(edges)
-    f["position_from_initial"] = any(s["p"] == "Position" for s in sdoc["ini"])
+    f["edge_right_or_bottom"] = any("right" in x or "bottom" in x for x in edges)
+    f["position_only_from_initial"] = bool(edges) and not any(s["p"] == "Position" for s in sty(0) + san(0))
   return f
